@@ -16,7 +16,9 @@ Reported: an expression statement that is
     alone: the non-updating set operations (union, intersection, difference,
     symmetric_difference), copy, the str / bytes transformations (strip,
     lstrip, rstrip, replace, lower, upper, format, encode, decode, split,
-    join).
+    join);
+  * a change made to a copy created in the same expression
+    (``table[:].sort()``, ``dict(d).update(e)``, ``x.copy().add(y)``).
 String constants on a line of their own are documentation (the package
 writes attribute docstrings that way) and are not reported; ``...`` neither.
 """
@@ -66,6 +68,65 @@ def sites(tree):
                 out.append((st, ".%s(...) returns a new value and leaves %s "
                             "as it was; the result is dropped" % (
                                 f.attr, ast.unparse(f.value)[:40])))
+            elif isinstance(f, ast.Attribute) and f.attr in MUTATORS and \
+                    _fresh_temporary(f.value):
+                out.append((st, "%s is a copy made on the spot: .%s(...) "
+                            "changes the copy, which is then dropped - the "
+                            "object it was copied from stays as it was" % (
+                                ast.unparse(f.value)[:40], f.attr)))
+    return out
+
+
+MUTATORS = {"append", "extend", "insert", "remove", "pop", "clear", "sort",
+            "reverse", "update", "add", "discard", "setdefault", "popitem",
+            "appendleft", "popleft"}
+
+
+def _fresh_temporary(e):
+    """An expression that makes a new container each time it is evaluated
+    (so a change made to its value cannot be seen anywhere)."""
+    if isinstance(e, ast.Subscript) and isinstance(e.slice, ast.Slice):
+        return True                                     # x[:] / x[a:b]
+    if isinstance(e, (ast.List, ast.Dict, ast.Set, ast.ListComp,
+                      ast.DictComp, ast.SetComp)):
+        return True
+    if isinstance(e, ast.Call):
+        f = e.func
+        if isinstance(f, ast.Name) and f.id in ("list", "dict", "set",
+                                                "sorted", "deepcopy",
+                                                "bytearray", "OrderedDict"):
+            return True
+        if isinstance(f, ast.Attribute) and f.attr in ("copy", "deepcopy"):
+            return True
+    return False
+
+
+def identity_with_values(tree):
+    """[(compare node, text)]: ``x is 3`` / ``s is not "abc"`` - identity
+    tested against a number, string or tuple.  Whether two equal values are
+    one object is an accident of the interpreter (small integers and short
+    strings are usually shared, others are not), so the test holds for the
+    values the suite happens to use and fails for others."""
+    out = []
+    for c in ast.walk(tree):
+        if isinstance(c, ast.Compare):
+            operands = [c.left] + list(c.comparators)
+            for i, op in enumerate(c.ops):
+                if not isinstance(op, (ast.Is, ast.IsNot)):
+                    continue
+                for e in (operands[i], operands[i + 1]):
+                    if isinstance(e, ast.Constant) and \
+                            e.value is not None and \
+                            not isinstance(e.value, bool) and \
+                            e.value is not Ellipsis:
+                        out.append((c, "'%s' tests identity with the value "
+                                    "%r; equal values need not be the same "
+                                    "object" % (ast.unparse(c)[:60],
+                                                e.value)))
+                    elif isinstance(e, ast.Tuple):
+                        out.append((c, "'%s' tests identity with a tuple "
+                                    "made on the spot: never the same "
+                                    "object" % ast.unparse(c)[:60]))
     return out
 
 
@@ -93,6 +154,15 @@ def rule(program, rep, rule_id, modules):
                 rep.bad(rule_id, "%s:%s" % (mname, q), "statement without "
                         "effect", "%s, line %d: %s - the statement changes "
                         "nothing" % (q, st.lineno, what), st)
+            for c, what in identity_with_values(d):
+                owner = c
+                while owner is not None and not isinstance(
+                        owner, (ast.FunctionDef, ast.AsyncFunctionDef)):
+                    owner = getattr(owner, "_parent", None)
+                if owner is d:
+                    rep.bad(rule_id, "%s:%s" % (mname, q), "identity with a "
+                            "value", "%s, line %d: %s" % (q, c.lineno, what),
+                            c)
     rep.ok(rule_id, ",".join(sorted(modules)) or "-",
            "%d function(s): no statement computes a value only to drop it"
            % n)
